@@ -92,6 +92,37 @@ CHECKS = {
              "digests, probe set after random histories and in 8 concurrent threads) — partial: interleavings are "
              "sampled.",
         note=MSG_NOTE, ref="DESIGN.md §6 C13"),
+    "C14": dict(
+        technique="Coq proof (layout of config_set/del/poll by unfolding + constructor postcondition, unbounded in the item list) + finite table obligations by vm_compute over the whole generated database + correspondence",
+        text="C14_set/del/poll_layout + C14_items/keys_layout: for every item list, the payload is the documented header "
+             "followed in order by each LE32 key id (and value at the key type's width); C14_limit (>64 refused; limit "
+             "lifted from the code each run); table obligations over all 1242 keys: size codes, distinct names, distinct "
+             "ids and name<->id inverse except the recorded duplicate 0x10340014 (_partial); C14_unknown_key. Parsing of "
+             "CFG-VALSET/VALGET key lists: by correspondence and search (no theorem yet).",
+        note=MSG_NOTE, ref="DESIGN.md §6 C14"),
+    "C16": dict(
+        technique="Coq: executable grammar wf_def evaluated by vm_compute over the whole generated tables (finite domain = the tables as found in the working tree) + nominal build/parse of every entry inside Coq; translator is the tie",
+        text="C16_tables_wf / C16_entries_wf: every entry of the GET/SET/POLL tables obeys the documented grammar (types, "
+             "flag widths, group sizes from earlier integer attributes, one trailing variable group, distinct names, no "
+             "collision with UBXMessage attributes, reachable in its mode) except the recorded findings, each named by "
+             "(mode, definition, rule); C16_usable: a nominal instance of every other entry builds and parses in both "
+             "bitfield views with distinct names (computed on the model); C16_msgid_classes, C16_variants_known.",
+        note=MSG_NOTE + " For C16 the tie is the translator: the tables ARE the subject.", ref="DESIGN.md §6 C16"),
+    "C17": dict(
+        technique="Coq proof (SETPOLL = parse in getinputmode's mode; getinputmode depends only on class/id and length) + finite table obligation over all SET/POLL definitions' length families + exhaustive INPUTMODE correspondence",
+        text="C17_setpoll, C17_inputmode_of, C17_long (constants lifted from getinputmode's AST each run); C17_set_partial / "
+             "C17_poll_partial: for every SET/POLL definition and every frame length its payloads can have, getinputmode "
+             "returns the definition's mode, except the recorded ambiguities (empty-payload SET; AID-ALM/AOP/EPH polls "
+             "with svid); C17_full_refuted gives the witnesses.",
+        note=MSG_NOTE, ref="DESIGN.md §6 C17"),
+    "C18": dict(
+        technique="Coq proof (integer codec round trip for every width by two's-complement arithmetic; X/C/nomval; R8 bit round trip; Fletcher closed form; get_bits) + exhaustive/boundary correspondence incl. the float engine",
+        text="C18_int_rt / C18_int_refuse / C18_bytes_rt for E,I,L,U of every width; C18_x_rt/_refuse, C18_c_rt, "
+             "C18_nomval; C18_r8_bits_rt (all 2^64 patterns but non-canonical NaNs); C18_fletcher_spec, C18_isvalid; "
+             "C18_get_bits. Partial: R4 rounding and val2sphp are modelled and tied by correspondence only; "
+             "utc2itow/itow2utc (datetime) are checked on the implementation only; att2idx/att2name modelled for "
+             "digit-only suffixes, by correspondence.",
+        note=MSG_NOTE, ref="DESIGN.md §6 C18"),
     "C12": dict(
         technique="Coq proof (list induction over the framing trace for the three error policies) + correspondence incl. handler calls and raised exception",
         text="C12_ignore_log, C12_handler (handler called exactly once per rejection, in order, with that exception, "
